@@ -132,6 +132,18 @@ func (t *tr) callPkg(pn, name string, ce *ast.CallExpr) callRes {
 		t.nargs(ce, 0)
 		return one(&val{t: tFe, c: t.newCell("0", "", oLocal)})
 	case "fmt.Errorf", "errors.New":
+		// the arguments are not translated: they must not contain calls (other than len), whose
+		// effects would be lost
+		for _, a := range ce.Args {
+			ast.Inspect(a, func(n ast.Node) bool {
+				if c, ok := n.(*ast.CallExpr); ok {
+					if id, isId := c.Fun.(*ast.Ident); !isId || id.Name != "len" || t.lookup("len") != nil {
+						t.fail("call inside the arguments of %s.%s: %s", pn, name, exprText(c))
+					}
+				}
+				return true
+			})
+		}
 		return one(&val{t: tErr, errK: 2})
 	case "hex.EncodeToString":
 		t.nargs(ce, 1)
@@ -169,8 +181,14 @@ func (t *tr) conv(ty *typ, arg ast.Expr) *val {
 	if ty.k == kZ && ty.bigVal {
 		if st, ok := unparen(arg).(*ast.StarExpr); ok {
 			x := t.eval(st.X)
-			if x.t.k == kZ {
-				return &val{t: ty, c: t.newCell(t.valueOf(x), "", oLocal)}
+			if x.t.k == kZ && x.c != nil {
+				// a struct copy of a big.Int shares the limb array: no in-place write to either afterwards
+				c := t.newCell(t.valueOf(x), "", oLocal)
+				c.shares = x.c
+				why := "its big.Int value was copied as a struct (" + exprText(arg) + "): the limbs are shared"
+				c.noWrite = why
+				t.setNoWrite(x.c, why)
+				return &val{t: ty, c: c}
 			}
 		}
 		t.fail("unsupported conversion to %s", ty.name)
@@ -243,6 +261,9 @@ func (t *tr) appendBytes(ce *ast.CallExpr) *val {
 	}
 	if a.c != nil {
 		t.fail("append to a slice of an array variable may write into the array")
+	}
+	if a.spare { // x[:hi]: append writes into the bytes of x behind hi
+		t.fail("append to a slice with an upper bound (%s) may write into the storage it was cut from", exprText(ce.Args[0]))
 	}
 	return &val{t: tSlice, e: par(t.bytesOf(a)) + " ++ " + par(t.bytesOf(b))}
 }
